@@ -24,6 +24,7 @@ func runC13(c *Ctx) {
 		"C13.2 the precedence sorter orders by precedence descending and every tie-break step compares one field on both sides",
 		"C13.3 every state-store function that assembles an intention list sorts it by precedence on every successful path before returning it",
 		"C13.4 the decision takes the first matching intention of the sorted list and falls back to the default only when none matches",
+		"C13.7 every insert into the legacy intentions table is preceded, on every path, by the lookup of another intention with the same source/destination 4-tuple (two intentions for one pair have equal precedence and nothing orders them)",
 		"C13.6 loops that collect intentions from an entry's Sources scan all of them (no stop at the first match)",
 		"C13.5 the stored precedence of a config-entry source is recomputed on every normalisation (never kept from the previous write)",
 	}
@@ -460,6 +461,7 @@ func checkPrecedenceRecomputed(c *Ctx) {
 	r.Floor("C13.5", 2)
 	_ = n
 	checkSourceCollectors(c)
+	checkLegacyDuplicateCheck(c)
 }
 
 // C13.6: a loop that collects intentions from an entry's Sources scans all of
@@ -646,4 +648,42 @@ func checkDecisionFirstMatch(c *Ctx) {
 func isBoolT(t types.Type) bool {
 	b, ok := t.Underlying().(*types.Basic)
 	return ok && b.Kind() == types.Bool
+}
+
+// C13.7
+func checkLegacyDuplicateCheck(c *Ctx) {
+	p, r := c.P, c.R
+	n := 0
+	for _, f := range p.SrcFuncs(statePkg) {
+		if isRestoreMethod(f) {
+			continue
+		}
+		var inserts []ssa.Instruction
+		for _, b := range f.Blocks {
+			for _, in := range b.Instrs {
+				if op := core.AsMemdbOp(in); op != nil && op.Op == "Insert" && op.TableKnown && op.Table == "connect-intentions" {
+					inserts = append(inserts, in)
+				}
+			}
+		}
+		if len(inserts) == 0 {
+			continue
+		}
+		mf := &core.MustFlow{F: f, Gen: func(in ssa.Instruction) []string {
+			if op := core.AsMemdbOp(in); op != nil && op.IsRead() && op.TableKnown && op.Table == "connect-intentions" && op.IndexKnown && op.Index == "source_destination" {
+				return []string{"dup"}
+			}
+			return nil
+		}}
+		mf.Run()
+		for _, ins := range inserts {
+			n++
+			if s, ok := mf.At(ins); ok && s["dup"] {
+				r.Hold("C13.7", core.FuncName(f), p.Pos(ins.Pos()), "the 4-tuple lookup precedes the insert on every path")
+			} else {
+				r.Violate("C13.7", core.FuncName(f), p.Pos(ins.Pos()), "a legacy intention can be stored without looking for another intention on the same source/destination pair (e.g. an update by ID that renames it onto an existing pair): the table then holds two intentions of equal precedence for one pair and which one decides depends on storage order")
+			}
+		}
+	}
+	r.Floor("C13.7", 1)
 }
